@@ -9,8 +9,9 @@ identities of the statement are checked directly:
   * polynomial reproduction: sum_j q(x_j) p_j(x) = q(x) for the monomials q = t^k, k = 0..degree
     (k = 0 is the partition of unity; a basis of the polynomial space decides all polynomials),
   * re-interpolation: get_interpolation(target) @ q(nodes) = q(target) for a fixed family of target grids
-    (nodes, nodes moved by 1 ulp, cell midpoints, same-length shifted grid, a foreign 7 point grid, single
-    points, and -- where nodes below 1e-7 exist -- grids that differ from the nodes only there),
+    (nodes, nodes moved by 1 ulp, nodes moved by a relative 1e-9, 3e-6, 1e-4 (all but the last / one interior node),
+    cell midpoints, same-length shifted grid, a foreign 7 point grid, single points, and -- where nodes below
+    1e-7 exist -- grids that differ from the nodes only there),
   * rejection of repeated points / too few points / degree < 1 (separate cases).
 
 The identities do not depend on which block of nodes the implementation interpolates with, so nothing
@@ -32,7 +33,7 @@ TECHNIQUE = "exhaustive (mode x grid family x x_min x size x degree) lattice; id
 LEVEL_TEXT = (
     "on every grid of the lattice and every admissible degree the Kronecker property, the partition of unity, "
     "the reproduction of all monomials up to the degree (hence of all such polynomials) and the same for the "
-    "re-interpolation matrix to 8 families of target grids are checked at all nodes, nodes +-1 ulp, cell "
+    "re-interpolation matrix to 12 families of target grids are checked at all nodes, nodes +-1 ulp, cell "
     "midpoints and ends; all rejection clauses are enumerated"
 )
 LEVEL_NOTE = (
@@ -96,6 +97,19 @@ def target_grids(g):
                 t[i] = min(2.0 * g[i], (g[i] * g[i + 1]) ** 0.5)
         if t != out["near-nodes:first-node-small-x"]:
             out["near-nodes:all-small-x"] = t
+    # same length as the nodes and next to them, by a RELATIVE amount far above rounding but small: a matrix that is
+    # the identity there misses every non-constant polynomial by (relative shift) x slope
+    for name, rel, idx in (
+        ("near-nodes-rel:all-1e-9", 1e-9, range(n - 1)),
+        ("near-nodes-rel:all-3e-6", 3e-6, range(n - 1)),
+        ("near-nodes-rel:one-3e-6", 3e-6, [min(n // 2, n - 2)]),
+        ("near-nodes-rel:all-1e-4", 1e-4, range(n - 1)),
+    ):
+        t = list(g)
+        for i in idx:
+            t[i] = g[i] * (1.0 + rel)
+        if all(a < b for a, b in zip(t, t[1:])) and t != list(g):
+            out[name] = t
     return out
 
 
@@ -111,7 +125,7 @@ def evaluate(case):
     pts = eval_points(g, case.get("dense", False))
     node_idx = {x: i for i, x in enumerate(g)}
     tgrids = target_grids(g)
-    info = {"max_err_over_tol": 0.0, "max_abs_err_wellcond": 0.0, "max_tol": 0.0, "checks": 0, "illcond_points": 0}
+    info = {"max_err_over_tol": 0.0, "max_abs_err_wellcond": 0.0, "max_tol": 0.0, "checks": 0, "illcond_points": 0, "loose_points": 0}
     where0 = f"log={is_log} shape={shape} xmin={xmin} n={n}"
     Qmax = min(6, n - 1)
     Q_nodes_all = ref.monomials(g, Qmax)
@@ -137,6 +151,7 @@ def evaluate(case):
             tol = np.array([_tol(cnd(x)) for x in pts])
             info["max_tol"] = max(info["max_tol"], float(tol.max()))
             info["illcond_points"] += int((tol > 1e-3).sum())
+            info["loose_points"] += int((tol > 1e-6).sum())
             if not np.all(np.isfinite(P)):
                 res.fail(f"basis/non-finite/{sig}", where)
                 continue
@@ -171,7 +186,7 @@ def evaluate(case):
             # ---- re-interpolation matrices
             for name, t in tgrids.items():
                 # one signature per defect class: targets that differ from the nodes only at very small x / all others
-                fam = "near-nodes" if name.startswith("near-nodes") else "target-grid"
+                fam = "near-nodes-rel" if name.startswith("near-nodes-rel") else "near-nodes" if name.startswith("near-nodes") else "target-grid"
                 try:
                     with warnings.catch_warnings():
                         warnings.simplefilter("ignore")
@@ -189,8 +204,13 @@ def evaluate(case):
                 ip, k = np.unravel_index(int(r.argmax()), r.shape)
                 _note(info, dev[ip, k], ttol[ip])
                 if r[ip, k] > 1.0:
+                    # the documented-wrong behaviour gets its own signature: the identity is handed back for a
+                    # target grid that is not the node set (any other failure of this family keeps the plain one)
+                    # (targets up to a relative 1e-5 from the nodes; the same answer farther away is another signature)
+                    ident = fam == "near-nodes-rel" and list(t) != list(g) and np.array_equal(R, np.eye(n))
+                    far = max(abs(a / b - 1.0) for a, b in zip(t, g)) > 1e-5 if ident else False
                     res.fail(
-                        f"get_interpolation/{fam}/{sig}",
+                        f"get_interpolation/{fam}/{('identity-returned/rel-' + ('above' if far else 'below') + '-1e-5/') if ident else ''}{sig}",
                         f"{where} target={name}: (R @ t(nodes)^{k})[{ip}] = {got[ip, k]!r} but t^{k} at target point "
                         f"{t[ip]!r} is {Q_t_all[name][ip, k]!r} (node {g[min(ip, n - 1)]!r}; tol {ttol[ip]:.2e})",
                     )
@@ -292,17 +312,24 @@ def run(ctx):
                     if thorough:
                         c["dense"] = True
                         c["mode_N"] = [False, True]
+                    elif n == 8 and xmin == 1e-5:
+                        # quick: the dispatcher as the library builds it by default (mode_N=True) for one size per (mode, family)
+                        c["mode_N"] = [False, True]
                     cases.append(c)
     nbasis = len(cases)
     cases += reject_cases()
     results = ctx.run_cases(cases, evaluate)
     nchecks = sum((r[1][3] or {}).get("checks", 0) for r in results)
+    nloose = sum((r[1][3] or {}).get("loose_points", 0) for r in results)
+    nill = sum((r[1][3] or {}).get("illcond_points", 0) for r in results)
+    ctx.extra.update(points_with_tol_above_1e_6=int(nloose), points_with_tol_above_1e_3=int(nill))
     ctx.rule = (
         f"complete product of mode {{log, linear}} x 5 grid families (geometric, linear, log-lin, Lambert, "
         f"irregular) x x_min in {xmins} x size in {sizes} (duplicates removed: {nbasis} grids), each with every "
         "degree 1..6 below the size; per (grid, degree) all nodes, nodes +-1 ulp, arithmetic/geometric cell "
-        "midpoints (thorough: quarter points, and both mode_N settings) and both ends, all monomials up to the "
-        "degree, 7-9 target grids; plus the enumerated rejection cases (repeated point at start/middle/end, "
+        "midpoints (thorough: quarter points, and both mode_N settings; quick: both mode_N settings for size 8, x_min 1e-5) "
+        "and both ends, all monomials up to the "
+        "degree, 11-13 target grids (incl. same-length grids next to the nodes by a relative 1e-9 / 3e-6 / 1e-4, all nodes or one node); plus the enumerated rejection cases (repeated point at start/middle/end, "
         "size <= degree, degree in {0,-1,-3}, empty and single-point grids, accepted border size = degree+1); "
         f"{nchecks} individual identity checks; non-trivial = at least one degree admissible"
     )
@@ -313,4 +340,8 @@ def run(ctx):
         "identities are decided at the lattice points only; polynomial space decided through its monomial basis",
         "'rejected' = any exception from XGrid(...) / InterpolatorDispatcher(...)",
         "'very small x' = below 1e-7 (the bound named by C42); such targets exist only for x_min < 1e-7",
+        "'any target grid' includes same-length grids next to the nodes (relative 1e-9, 3e-6, 1e-4; signatures "
+        "get_interpolation/near-nodes-rel/...): they are held to the same tolerance as every other target; an identity "
+        "matrix handed back for such a grid is reported as .../identity-returned/rel-{below,above}-1e-5/log=...; "
+        "shifts between 1 ulp and ~1e-12 change a polynomial by less than the tolerance floor and cannot be judged",
     ]
